@@ -18,6 +18,7 @@ import time
 import uuid
 import logging
 import argparse
+import ipaddress
 import tempfile
 import contextlib
 import subprocess
@@ -173,7 +174,13 @@ def get_ext_config(
     if alt_subj_names is not None and len(alt_subj_names) > 0:
         alt_names = []
         for cname in alt_subj_names:
-            alt_names.append(b'DNS:%s' % bytes_(cname))
+            # IP address literals need an IP: entry, a DNS: entry
+            # naming an address is not honoured by verifying clients.
+            try:
+                ipaddress.ip_address(cname)
+                alt_names.append(b'IP:%s' % bytes_(cname))
+            except ValueError:
+                alt_names.append(b'DNS:%s' % bytes_(cname))
         config += b'\nsubjectAltName=' + COMMA.join(alt_names)
     # Add extendedKeyUsage section
     if extended_key_usage is not None:
